@@ -235,6 +235,14 @@ func c18(c *Ctx) {
 			pat = []string{"a", "b", "ab", "ba", "x", "-", "a b", "Z"}[r.Intn(8)] // a pattern without any metacharacter
 		}
 		subj := randStr(12, true)
+		if r.Intn(5) == 0 {
+			// a literal word anchored at one end or at both (^w$, \Aw\z, ^(?:w)$, ^w, w$, ^a\.b$) against subjects
+			// that are the word, start with it, end with it, or merely contain it
+			w := []string{"a", "ab", "ba", "x", "a b", "a.b", "Z"}[r.Intn(7)]
+			qw := regexp.QuoteMeta(w)
+			pat = []string{"^" + qw + "$", "\\A" + qw + "\\z", "^(?:" + qw + ")$", "^" + qw, qw + "$", "^[" + w[:1] + "]" + regexp.QuoteMeta(w[1:]) + "$", "(?i)^" + qw + "$", "(?m)^" + qw + "$"}[r.Intn(8)]
+			subj = []string{w, "x" + w, w + "x", "x" + w + "x", w + w, "", strings.ToUpper(w), w + "\n" + w, "q\n" + w}[r.Intn(9)]
+		}
 		if strings.ContainsAny(subj, "\\\"") {
 			continue
 		}
